@@ -112,15 +112,26 @@ func blockToSeqPair(alignedBlock alignedBlockInfo, ref []byte) alignPair {
 		for _, insertion := range insertions {
 			// this is the pair it is already present in, which we will skip:
 			rowNumber := insertion.rowNumber
-			for j, seqPair := range alignedBlock.seqpairArray {
+			for j := range alignedBlock.seqpairArray {
 				// don't reinsert - the insertion already exists in this one
 				if j == rowNumber {
 					continue
 				}
 
-				// if the insertions starts after the (offset) length of this sequence,
-				// we don't have to do anything to this pair here
-				if insertion.start > len(alignedBlock.seqpairArray[j].ref)-offsets[j] {
+				// if the insertions starts after the last reference position that this
+				// sequence reaches, we don't have to do anything to this pair here
+				refEnd := alignedBlock.posArray[j]
+				// this row's own insertions to the left of this one also shift its columns
+				ownOffset := 0
+				for _, op := range alignedBlock.cigarArray[j] {
+					if op.Type().String() == "I" && refEnd < insertion.start {
+						ownOffset += op.Len()
+					}
+					if op.Type().Consumes().Reference == 1 {
+						refEnd += op.Len()
+					}
+				}
+				if insertion.start > refEnd {
 					continue
 				}
 
@@ -130,13 +141,21 @@ func blockToSeqPair(alignedBlock alignedBlockInfo, ref []byte) alignPair {
 					gaps[k] = '-'
 				}
 
-				refSeqArray[j] = refSeqArray[j][:insertion.start+offsets[j]]
-				refSeqArray[j] = append(refSeqArray[j], gaps...)
-				refSeqArray[j] = append(refSeqArray[j], seqPair.ref[insertion.start+offsets[j]:]...)
+				// the column of this row that the insertion goes in front of
+				col := insertion.start + offsets[j] + ownOffset
 
-				queSeqArray[j] = seqPair.query[:insertion.start+offsets[j]]
-				queSeqArray[j] = append(queSeqArray[j], gaps...)
-				queSeqArray[j] = append(queSeqArray[j], seqPair.query[insertion.start+offsets[j]:]...)
+				// (build new slices: the old ones must not be written to while they are still being read)
+				newRef := make([]byte, 0, len(refSeqArray[j])+insertion.length)
+				newRef = append(newRef, refSeqArray[j][:col]...)
+				newRef = append(newRef, gaps...)
+				newRef = append(newRef, refSeqArray[j][col:]...)
+				refSeqArray[j] = newRef
+
+				newQue := make([]byte, 0, len(queSeqArray[j])+insertion.length)
+				newQue = append(newQue, queSeqArray[j][:col]...)
+				newQue = append(newQue, gaps...)
+				newQue = append(newQue, queSeqArray[j][col:]...)
+				queSeqArray[j] = newQue
 
 				// and we add the relevant offset to account for this insertion in future coordinates
 				offsets[j] += insertion.length
